@@ -28,7 +28,12 @@ RULE = ("honest pairings over random codes/identifiers/keys/salts; adversarial: 
         "advertisement, only bleak's connect replaced by a GATT link), IpDiscovery (in-memory TCP) and CoAPDiscovery (aiocoap context replaced) in which the link is lost before / after each of M1..M6, at the "
         "n-th GATT fragment write / read, at a connection attempt or while idle, once or several times, so that the library's own retries and reconnects run (virtual time) against an accessory that opens a NEW "
         "SRP session (new salt, new B) for every M1, forgets it with the link, and in chosen sessions is a wrong-code accessory or alters one reply - judged by the accessory's own verdict on every M3 / M5 it "
-        "receives in its CURRENT session and by what it accepted during the call that returned. non-trivial = distinct (mutation class, outcome class)")
+        "receives in its CURRENT session and by what it accepted during the call that returned; the required items of the reply with an ENCRYPTED PAYLOAD (M6: Identifier, PublicKey, Signature) split between the payload and "
+        "the PLAINTEXT reply (stream payload_level): every non-empty subset taken out of the payload and supplied as plaintext items next to EncryptedData (same value, another identity's value, a signature by another key), "
+        "a whole other identity in plaintext with an empty payload, complete payloads shadowed by plaintext items of the inner types (same / different values), another identity inside with the accessory's own in plaintext, "
+        "items taken out and not supplied, plaintext items before / between / after State and EncryptedData - through the generators with replies as lists, decoded whole (BLE) and with the expected filter, the GATT driver, "
+        "IpDiscovery, CoAPDiscovery and the failing-link histories of BleDiscovery / IpDiscovery / CoAPDiscovery; judged by what the accessory sealed: pairing succeeds only if all required items are INSIDE the payload that "
+        "decrypts under the exchange key with the signature there valid over the identifier and key there, and returns exactly that identifier and key. non-trivial = distinct (mutation class, outcome class)")
 TRUSTED = ["reference SRP server and accessory (harness/refacc.py)", "Lean Real crypto (validated per run)"]
 ASSUMPTIONS = ["SRP values themselves are C02's subject: the model takes K and the expected server proof from the real SrpClient of the same exchange",
                "ephemerals pinned by patching os.urandom (srp) and Ed25519PrivateKey.generate (protocol) in the differential streams only; the history streams leave the library's random source alone and "
@@ -579,12 +584,83 @@ def wire_ops(tmpl, expected, rng, every_byte, nsub, nval, nindel, nlenflip=8):
     return ops
 
 
+# ---- which items travel INSIDE the encrypted payload of a reply and which in plaintext next to EncryptedData ----------
+# The only reply of pair-setup with an encrypted payload is M6 (required inside: Identifier, PublicKey, Signature); the
+# machinery is written over (message, required types) so that it reads the same for any such message.
+
+PAYLOAD_REQUIRED = {6: (1, 3, 10)}
+PAYLOAD_SOURCES = ("own", "other", "forged")
+OTHER_ACC_ID = b"99:88:77:66:55:44"
+
+
+def payload_values(ax, own, rb):
+    """the values an item of the payload can be given: 'own' - the accessory's identifier, long-term key and its signature over
+    them; 'other' - identifier, key and (valid) signature of ANOTHER identity under the same exchange; 'forged' - the other
+    identity's identifier / key, and for the signature: the accessory's own identifier and key signed by the OTHER key"""
+    o = refacc.Identity(rb, acc_id=OTHER_ACC_ID)
+    return {"own": dict(own),
+            "other": {1: o.acc_id, 3: o.acc_ltpk, 10: o.acc_ltsk.sign(ax + o.acc_id + o.acc_ltpk)},
+            "forged": {1: o.acc_id, 3: o.acc_ltpk, 10: o.acc_ltsk.sign(ax + own[1] + own[3])}}
+
+
+def payload_shape(msg, spec):
+    """what the split does to the required items, from the specification alone"""
+    required = PAYLOAD_REQUIRED[msg]
+    inside = {int(t) for t, _ in spec.get("inside", [])}
+    outside = {int(t) for t, _ in spec.get("outside", [])}
+    missing = [t for t in required if t not in inside]
+    if missing:
+        return "moved" if all(t in outside for t in missing) else "removed"
+    if outside:
+        return "shadowed"
+    return "whole" if all(src == "own" for _, src in spec.get("inside", [])) else "other-identity"
+
+
+def payload_mutations(rng, msg, every):
+    """splits of the required items of reply `msg` between the encrypted payload and the plaintext reply.  Always: every
+    non-empty subset of the required items taken OUT of the payload and supplied in plaintext next to EncryptedData (with the
+    same value; quick tier: one source per subset in rotation, thorough: same value / another identity's / signed by another
+    key each), the whole of another identity supplied in plaintext with an empty payload, a complete genuine payload with
+    plaintext items of the inner types next to it (same values; another identity's values), another identity complete inside
+    with the accessory's own values in plaintext, items taken out and not supplied, a payload whose signature is by another
+    key with the genuine signature in plaintext; the plaintext items before State, between State and EncryptedData, after."""
+    required = PAYLOAD_REQUIRED[msg]
+    subsets = [[t for k, t in enumerate(required) if mask >> k & 1] for mask in range(1, 1 << len(required))]
+    out = []
+
+    def add(inside, outside):
+        out.append({"msg": msg, "payload": {"inside": [list(x) for x in inside], "outside": [list(x) for x in outside], "pos": rng.randrange(3)}})
+
+    for k, sub in enumerate(subsets):
+        keep = [(t, "own") for t in required if t not in sub]
+        add(keep, [(t, "own") for t in sub])
+        for src in (PAYLOAD_SOURCES[1:] if every else [PAYLOAD_SOURCES[1 + k % 2]]):
+            add(keep, [(t, src) for t in sub])
+    add([], [(t, "other") for t in required])
+    add([(t, "own") for t in required], [(t, "own") for t in rng.choice(subsets)])
+    add([(t, "own") for t in required], [(t, "other") for t in (subsets if every else [rng.choice(subsets)])[-1]])
+    add([(t, "other") for t in required], [(t, "own") for t in required])
+    add([(t, "other") for t in required], [])
+    sub = rng.choice(subsets[:-1])
+    add([(t, "own") for t in required if t not in sub], [(t, "own") for t in required if t not in sub])
+    add([(1, "own"), (3, "own"), (10, "forged")], [(10, "own")])
+    add([(1, "other"), (3, "own"), (10, "own")], [(1, "own")])
+    add([(1, "own"), (3, "other"), (10, "own")], [(3, "own")])
+    if every:
+        for sub in subsets:
+            for _ in range(3):
+                add([(t, rng.choice(PAYLOAD_SOURCES)) for t in required if t not in sub or rng.random() < 0.2], [(t, rng.choice(PAYLOAD_SOURCES)) for t in required if t in sub or rng.random() < 0.3])
+    return out
+
+
 class Peer:
     """a conformant pair-setup accessory (HAP 5.6, harness.refacc) that keeps a transcript; optionally ONE field of ONE of
     its replies is altered: mutation = {"msg": 2|4|6, "where": "outer"|"inner", "field": tlv type, "op": [...]} alters the value
     of one item; mutation = {"msg": 2|4|6, "where": "outer"|"inner", "wire": [...]} corrupts the ENCODED reply (wire_apply) as it
     travels - only the entry points that ask for bytes (handle_wire) see it; for "inner" the sub-TLV of M6 is corrupted before
-    it is sealed"""
+    it is sealed; mutation = {"msg": 6, "payload": {"inside": [[type, source]...], "outside": [[type, source]...], "pos": 0|1|2}}
+    chooses which items the accessory seals into the encrypted payload of the reply and which items travel in PLAINTEXT next to
+    EncryptedData (payload_values: the accessory's own value, another identity's, a signature by another key)"""
 
     def __init__(self, pin, ident, rb, salt, mutation=None, reverse=False):
         self.pin, self.id, self.rb, self.salt, self.mutation, self.reverse = pin, ident, rb, salt, mutation, reverse
@@ -595,10 +671,44 @@ class Peer:
         self.proved = False
         self.last_msg = None
         self.wire = None  # {"msg", "where", "genuine": bytes the accessory produced, "sent": bytes that travelled}
+        self.payload = None  # {"inside": items sealed, "outside": plaintext items added, "verdict", "id", "pk"} (payload mutation)
+
+    def expected_identity(self):
+        """(identifier, long-term key) a pairing with this accessory may return: the ones carried inside the payload it sealed"""
+        if self.payload is not None and self.payload["verdict"] != "must-fail":
+            return self.payload["id"], self.payload["pk"]
+        return self.id.acc_id, self.id.acc_ltpk
+
+    def _split(self, msg, ax, own, required=(1, 3, 10)):
+        """the items sealed into the encrypted payload of reply `msg` and the plaintext items that travel next to EncryptedData;
+        the verdict follows from the payload alone: the property wants every required item INSIDE what decrypts under the
+        exchange key and the signature found there valid, by the key found there, over the identifier and key found there"""
+        m = self.mutation
+        if not m or "payload" not in m or self.applied or m["msg"] != msg:
+            return [(t, own[t]) for t in required], [], 1
+        spec = m["payload"]
+        vals = payload_values(ax, own, self.rb)
+        inside, seen = [], set()
+        for t, src in spec.get("inside", []):
+            if int(t) not in seen:  # one item of a type inside: which of two would count is not defined
+                seen.add(int(t))
+                inside.append((int(t), vals[src][int(t)]))
+        outside = [(int(t), vals[src][int(t)]) for t, src in spec.get("outside", [])]
+        inner = dict(inside)
+        ok = all(t in inner for t in required)
+        if ok:
+            try:
+                ed25519.Ed25519PublicKey.from_public_bytes(inner[3]).verify(inner[10], ax + inner[1] + inner[3])
+            except Exception:  # noqa: BLE001
+                ok = False
+        verdict = "must-fail" if not ok else ("void" if outside else "genuine")
+        self.applied = True
+        self.payload = {"inside": inside, "outside": outside, "verdict": verdict, "id": inner.get(1), "pk": inner.get(3), "missing": [t for t in required if t not in inner]}
+        return inside, outside, int(spec.get("pos", 2))
 
     def _mutate(self, msg, where, items):
         m = self.mutation
-        if not m or "wire" in m or self.applied or m["msg"] != msg or m.get("where", "outer") != where:
+        if not m or "wire" in m or "payload" in m or self.applied or m["msg"] != msg or m.get("where", "outer") != where:
             return items
         f, op = int(m["field"]), m["op"]
         if op[0] == "add":
@@ -666,9 +776,11 @@ class Peer:
                 self.accepted = (sub[1].decode("utf-8", "replace"), sub[3])
                 ax = refacc.hk(K, b"Pair-Setup-Accessory-Sign-Salt", b"Pair-Setup-Accessory-Sign-Info")
                 sig = self.id.acc_ltsk.sign(ax + self.id.acc_id + self.id.acc_ltpk)
-                inner = self._mutate(6, "inner", [(1, self.id.acc_id), (3, self.id.acc_ltpk), (10, sig)])
+                sealed, plain, pos = self._split(6, ax, {1: self.id.acc_id, 3: self.id.acc_ltpk, 10: sig})
+                inner = self._mutate(6, "inner", sealed)
                 enc = ChaCha20Poly1305(ekey).encrypt(b"\0\0\0\0PS-Msg06", self._corrupt(6, "inner", refacc.tlv(inner)), b"")
                 reply, msg = [(6, b"\x06"), (5, enc)], 6
+                reply = reply[:pos] + plain + reply[pos:]
         self.last_msg = msg
         if msg is not None:
             if self.reverse:
@@ -891,6 +1003,8 @@ async def _ble_attempt(env, peer, pin, fs, chunk):
 
 
 def mutation_kind(m):
+    if "payload" in m:
+        return f"m{m['msg']}-payload-{payload_shape(m['msg'], m['payload'])}"
     if "wire" in m:
         return f"m{m['msg']}{'i' if m.get('where') == 'inner' else ''}-wire-{m['wire'][0]}"
     return f"m{m['msg']}{'i' if m.get('where') == 'inner' else ''}-{FIELD.get(int(m['field']), m['field'])}-{m['op'][0]}"
@@ -939,6 +1053,14 @@ def run_history(ctx, env, hist, rb):
             verdict = wire_verdict(wire["msg"], wire["where"], wire["genuine"], wire["sent"])
             kind += "-" + wire_class(wire["genuine"], st["mutation"]["wire"])
             ctx.dist[f"wire:{entry}:m{wire['msg']}{'i' if wire['where'] == 'inner' else ''}:{verdict}:{'ok' if exc is None else 'err'}"] += 1
+        # a reply whose required items were split between the encrypted payload and the plaintext reply: the verdict follows from
+        # what the accessory sealed (Peer._split); the identity a pairing may return is the one inside the payload
+        pay = getattr(peer, "payload", None)
+        exp_id, exp_pk = acc_id, ident.acc_ltpk
+        if pay is not None:
+            verdict = pay["verdict"]
+            exp_id, exp_pk = peer.expected_identity()
+            ctx.dist[f"payload:{entry}:{kind}:{verdict}:{'ok' if exc is None else 'err'}"] += 1
         ctx.nontrivial.add(("history", entry, kind, cls))
         ctx.dist[f"history:{entry}:{kind}:{cls}"] += 1
         where = f"step {i + 1} of {len(hist['steps'])} ({kind}, {entry}, code {pin})"
@@ -957,8 +1079,11 @@ def run_history(ctx, env, hist, rb):
                     problems.append((f"setup/{kind}/{entry}/rejected-genuine", f"{where}: pairing a conformant accessory failed with {type(exc).__name__}: {str(exc)[:80]}", i))
             else:
                 bad = []
-                if rec.get("AccessoryPairingID") != acc_id.decode() or rec.get("AccessoryLTPK") != ident.acc_ltpk.hex():
-                    bad.append("the accessory identity returned is not the one authenticated in this exchange")
+                if rec.get("AccessoryPairingID") != exp_id.decode() or rec.get("AccessoryLTPK") != exp_pk.hex():
+                    bad.append("the accessory identity returned is not the one authenticated in this exchange" if pay is None else
+                               f"the accessory identity returned ({rec.get('AccessoryPairingID')}, key {str(rec.get('AccessoryLTPK'))[:16]}...) is not the one carried inside the payload that decrypts under "
+                               f"the exchange key and covered by the signature found there ({exp_id.decode()}, key {exp_pk.hex()[:16]}...); in plaintext next to EncryptedData travelled "
+                               f"{[(FIELD.get(t, t), v.hex()[:16] + '...') for t, v in pay['outside']]}")
                 if peer.accepted is None or rec.get("iOSPairingId") != peer.accepted[0] or rec.get("iOSDeviceLTPK") != peer.accepted[1].hex():
                     bad.append("the controller identity returned is not the one this accessory accepted")
                 else:
@@ -974,13 +1099,18 @@ def run_history(ctx, env, hist, rb):
             if exc is None:
                 what = {"replay": f"the peer only played back the replies of exchange {st.get('of', 0) + 1} and never proved knowledge of the setup code in this exchange",
                         "wrong-code": "the accessory was programmed with another setup code"}.get(kind, f"reply M{st.get('mutation', {}).get('msg')} was altered ({st.get('mutation')})")
-                if verdict is not None:
+                if verdict is not None and pay is None:
                     g, x = wire["genuine"], wire["sent"]
                     lo = max(0, next((k for k in range(min(len(g), len(x))) if g[k] != x[k]), min(len(g), len(x))) - 3)
                     what = (f"{'the sub-TLV sealed into M6' if wire['where'] == 'inner' else 'reply M%d' % wire['msg']} was altered in transit ({st['mutation']['wire']}): the accessory produced "
                             f"...{g[lo:lo + 10].hex()}... (offset {lo}, {len(g)} bytes), what travelled was ...{x[lo:lo + 10].hex()}... ({len(x)} bytes), which reads as items "
                             f"{[(t, len(v)) for t, v in read_tlv8(x)[0]]} (type, length) instead of {[(t, len(v)) for t, v in read_tlv8(g)[0]]} - "
                             f"{', '.join(FIELD.get(t, str(t)) for t in WIRE_REQUIRED[(wire['msg'], wire['where'])])} must arrive with the accessory's value")
+                if pay is not None:
+                    names = lambda items: [(FIELD.get(t, str(t)), len(v)) for t, v in items]  # noqa: E731
+                    what = (f"the payload of M6 that decrypts under the exchange key carried only the items {names(pay['inside'])} (type, length) - "
+                            + (f"required {[FIELD.get(t, str(t)) for t in pay['missing']]} missing from it" if pay["missing"] else "the signature inside it does not verify, by the key inside it, over the identifier and key inside it")
+                            + f" - while {names(pay['outside'])} travelled as PLAINTEXT items next to EncryptedData ({st['mutation']['payload']}); returned AccessoryPairingID={rec.get('AccessoryPairingID') if isinstance(rec, dict) else None!r}")
                 problems.append((f"setup/{kind}/{entry}/returned", f"{where}: pairing data was returned ({str(rec)[:60]}...) although {what}", i))
             elif type(exc).__name__ not in CLS and verdict is None:
                 problems.append((f"setup/{kind}/{entry}/{type(exc).__name__}", f"{where}: unexpected exception class {type(exc).__name__}: {str(exc)[:80]}", i))
@@ -1067,6 +1197,8 @@ def history_level(ctx, rng, rb):
             go(hist(entry, steps))
         # (e) replies corrupted as BYTES on their way (type bytes, length bytes, values, one byte more or less, items swapped)
         wire_level(ctx, rng, rb, hist, go)
+        # (g) the required items of the encrypted reply split between the payload and the plaintext reply
+        payload_level(ctx, rng, hist, go)
         # (d) two pair-setups alive at the same time
         for _ in range(ctx.budget(1, 30)):
             case = {"stream": "interleave", "wire": rng.random() < 0.5, "pins": [rng.choice(PINS), rng.choice(PINS)], "salt": hx(rb(16)),
@@ -1149,6 +1281,34 @@ def wire_level(ctx, rng, rb, hist, go):
                      f"with a salt / key other than the accessory's (whole pairings sampled: they fail at M4); {tolerated} corrupted replies were "
                      "ACCEPTED in which every item the step uses arrived intact by the harness's reading (the State item made unreadable - handle_state_step tolerates a reply without State -, a stray "
                      "byte after the last item that the expected-type filter skips, a second separated item of a type whose later occurrence is the genuine one): not asserted either way")
+
+
+UNFILTERED = ("gen-list", "gen-raw", "ble-gatt")  # entry points that hand the whole decoded reply to the state machine
+FILTERED = ("gen-wire", "ip", "coap")             # ... that decode with the expected-type list the generator yielded
+
+
+def payload_level(ctx, rng, hist, go):
+    """a reply with an encrypted payload (M6) whose required items the accessory - or whoever holds the exchange key, or sits
+    on the link and adds plaintext items - distributes between the payload and the plaintext TLV around EncryptedData
+    (payload_mutations), through every way a reply reaches the state machine.  Oracle (Peer._split, run_history): pairing
+    succeeds only when Identifier, PublicKey and Signature are INSIDE the payload and the signature there is valid over the
+    identifier and key there; what is returned is that identifier and key, whatever travels in plaintext."""
+    every = ctx.budget(False, True)
+    for msg in PAYLOAD_REQUIRED:
+        for k, m in enumerate(payload_mutations(rng, msg, every)):
+            shape = payload_shape(msg, m["payload"])
+            own_moved = shape == "moved" and all(src == "own" for _, src in m["payload"]["outside"])
+            entries = list(UNFILTERED) if every or own_moved else [UNFILTERED[k % len(UNFILTERED)]]
+            if every:
+                entries += list(FILTERED)
+            elif k % 6 == 0:
+                entries.append(FILTERED[(k // 6) % len(FILTERED)])
+            for entry in entries:
+                go(hist(entry, [{"peer": "mutate", "mutation": m}]))
+    seen = sorted({k.split(":")[2] + ":" + k.split(":")[3] + ":" + k.split(":")[4] for k in ctx.dist if k.startswith("payload:") and k.split(":")[3] == "void"})
+    if seen:
+        ctx.notes.append("payload splits: replies whose encrypted payload was complete and valid while plaintext items of the inner types travelled next to EncryptedData were met with "
+                         + ", ".join(seen) + " (accepting them with the identity inside the payload or refusing them are both allowed; asserted: the identity returned is the payload's)")
 
 
 def run_interleaved(ctx, case, rb):
@@ -1356,6 +1516,8 @@ def session_kind(s, ci):
         if not peer.applied or (how["mutation"]["msg"] != 2 and s.get("applied_call") != ci):
             return "honest", "honest"
         label = mutation_kind(how["mutation"])
+        if peer.payload is not None:
+            return {"genuine": "honest", "void": "void"}.get(peer.payload["verdict"], "adversarial"), label
         if peer.wire is not None:
             v = wire_verdict(peer.wire["msg"], peer.wire["where"], peer.wire["genuine"], peer.wire["sent"])
             return {"genuine": "honest", "void": "void"}.get(v, "adversarial"), label
@@ -1783,12 +1945,13 @@ def run_links(ctx, env, case, rb):
                             elif skind == "adversarial":
                                 problems.append((f"setup/links/{transport}/{slabel}/returned", f"{where}: a pairing was returned ({str(rec)[:60]}...) although a reply of the session it came from was altered "
                                                  f"({s['how']})", ci))
-                            elif skind == "honest":
+                            elif skind == "honest" or (skind == "void" and s["peer"].payload is not None):
                                 peer, bad = s["peer"], []
+                                exp_id, exp_pk = peer.expected_identity()
                                 if not isinstance(rec, dict):
                                     bad.append(f"the object returned carries no pairing data ({type(res).__name__})")
                                 else:
-                                    if rec.get("AccessoryPairingID") != world.ident.acc_id.decode() or rec.get("AccessoryLTPK") != world.ident.acc_ltpk.hex():
+                                    if rec.get("AccessoryPairingID") != exp_id.decode() or rec.get("AccessoryLTPK") != exp_pk.hex():
                                         bad.append("the accessory identity returned is not the one authenticated in this exchange")
                                     if rec.get("iOSPairingId") != peer.accepted[0] or rec.get("iOSDeviceLTPK") != peer.accepted[1].hex():
                                         bad.append("the controller identity returned is not the one this accessory accepted")
@@ -1906,6 +2069,19 @@ def link_cases(ctx, rng):
             out.append(mk(transport, begin + LINK_TAIL, [], {"1": adversary()}))
         else:
             out.append(mk(transport, [["start"], ["finish", "wrong"]] + LINK_TAIL, [], {"2": adversary()}))
+    # the encrypted reply's required items split between the payload and the plaintext reply (payload_mutations), in the first
+    # session or in the one a retry lands in - through the discovery objects' own finish_pairing
+    for msg in PAYLOAD_REQUIRED:
+        muts = payload_mutations(rng, msg, False)
+        moved = [m for m in muts if payload_shape(msg, m["payload"]) == "moved"]
+        same = [m for m in moved if all(src == "own" for _, src in m["payload"]["outside"])]  # the accessory's own values, only outside the payload
+        picks = [("ble", rng.choice(same)), ("ble", rng.choice(moved)), ("ble", rng.choice(same)), (rng.choice(["ip", "coap"]), rng.choice(moved)), ("ble", rng.choice(muts))]
+        picks += [(rng.choice(["ble", "ble", "ip", "coap"]), rng.choice(muts)) for _ in range(ctx.budget(0, 40))]
+        for k, (transport, m) in enumerate(picks):
+            if k % 2 == 0:
+                out.append(mk(transport, begin + LINK_TAIL, [], {"1": {"mutation": m}}))
+            else:
+                out.append(mk(transport, begin + LINK_TAIL, [fault(transport, *rng.choice(LINK_POINTS[2:5]))], {"2": {"mutation": m}}))
     # random histories
     for _ in range(ctx.budget(4, 300)):
         transport = rng.choice(["ble", "ble", "ip", "coap"])
